@@ -326,10 +326,12 @@ def semi_singleton_metaclass(hashfunc: Callable | None = None) -> type:
               call.
             :param kwargs: Dictionary of keyword arguments passed to the class
               call.
-            :return: A hash of the arguments.
+            :return: A hashable key identifying the arguments.  (The key is
+              the arguments themselves rather than their ``hash()``, since
+              distinct arguments may share a hash value.)
             """
             jwargs = json.dumps(kwargs, sort_keys=True)
-            return hash((args, jwargs))
+            return (args, jwargs)
 
     class _SemiSingleton(type):
         """
